@@ -228,6 +228,88 @@ def dispatch_agreement(model, res):
                         construct=src_of(b[i])[:100] if i < len(b) else 'dispatch'))
 
 
+def ic_static_link(model, res):
+    """Rod1D, special cases BC1-BC4: the series coefficients are built for the initial profile MINUS
+    the static (non-homogeneous) part that _run adds back: in modes_BCk,  Ta = TL - static(x=0)  and
+    Tb = TR - static(x=L)  with static(x) the expression _run assigns to tempnonhom in the same case.
+    Otherwise the solution does not tend to the declared initial profile as t -> 0+."""
+    cls = model.get_class(H + 'rod1d:Rod1D')
+    init, runm = cls.methods['__init__'], cls.methods['_run']
+
+    def chain(fn):
+        for st in fn.node.body:
+            if isinstance(st, ast.If):
+                out, cur = [], st
+                while True:
+                    out.append(cur)
+                    if len(cur.orelse) == 1 and isinstance(cur.orelse[0], ast.If):
+                        cur = cur.orelse[0]
+                    else:
+                        break
+                if len(out) >= 3:
+                    return out
+        return None
+    ci, cr = chain(init), chain(runm)
+    if ci is None or cr is None or len(ci) != len(cr):
+        raise AnalysisError('boundary-condition dispatch chains vanished / differ in length')
+    b = Builder(model)
+    objn, ret = b.run_solver(cls)
+    root = [n for n in b.trace if n.kind == 'input' and n.val == 'r'][0]
+    keys = model.parameters_keys(cls) or []
+    assigns = {}
+    for func, tnode, vnode in b.assign_log:
+        assigns[id(tnode)] = vnode
+    checked = 0
+    for k, (bi, br) in enumerate(zip(ci, cr)):
+        # the modes function this case calls
+        callee = None
+        for st in bi.body:
+            if isinstance(st, ast.Expr) and isinstance(st.value, ast.Call) and isinstance(st.value.func, ast.Attribute):
+                callee = cls.methods.get(st.value.func.attr)
+        if callee is None:
+            continue
+        tn = None
+        for st in br.body:
+            if isinstance(st, ast.Assign) and len(st.targets) == 1 and isinstance(st.targets[0], ast.Name) \
+                    and st.targets[0].id == 'tempnonhom':
+                tn = st.targets[0]
+        ta = tb = None
+        for st in ast.walk(callee.node):
+            if isinstance(st, ast.Assign) and len(st.targets) == 1 and isinstance(st.targets[0], ast.Name):
+                if st.targets[0].id == 'Ta':
+                    ta = st.targets[0]
+                if st.targets[0].id == 'Tb':
+                    tb = st.targets[0]
+        if tn is None or ta is None or tb is None:
+            continue
+        static = assigns.get(id(tn))
+        if static is None or id(ta) not in assigns or id(tb) not in assigns:
+            raise AnalysisError('Rod1D case %d: Ta / Tb / tempnonhom not found in the value graph' % (k + 1))
+        for label, tnode, end, par in (('Ta', ta, 'x = 0', None), ('Tb', tb, 'x = L', 'L')):
+            ev = NFEval(keys)
+            ev.memo[root.nid] = ev.num(0) if par is None else ev.atom('param:%s' % par)
+            want = ev.add(ev.atom('param:TL' if label == 'Ta' else 'param:TR'), ev.nf(static), -1)
+            got = ev.nf(assigns[id(tnode)])
+            res.obligations += 1
+            res.evaluations += 1
+            res.nontrivial += 1
+            checked += 1
+            if got is not NAN and want is not NAN and got.key() == want.key():
+                res.discharged += 1
+                res.sample({'rule': 'C14.ic-static-link', 'case': callee.name, 'identity': '%s == %s - static(%s)'
+                            % (label, 'TL' if label == 'Ta' else 'TR', end), 'normal_form': got.key()[:120]}, limit=30)
+            else:
+                res.add(Finding(PROP, 'C14.ic-static-link', callee.module.relpath, callee.qualname,
+                                '%s: %s is not the initial end value minus the static part at %s' % (callee.name, label, end),
+                                "Rod1D.%s builds its Fourier coefficients from %s = %s, but the static part that _run adds "
+                                "back in the same case is %s at %s, so %s must be %s: the series is expanded for the wrong "
+                                "initial profile and the solution does not tend to the declared initial data as t -> 0+"
+                                % (callee.name, label, got.key()[:120] if got is not NAN else 'NaN', ev.nf(static).key()[:100],
+                                   end, label, want.key()[:120]), line=tnode.lineno, construct='%s = ...' % label))
+    if checked < 8:
+        raise AnalysisError('only %d initial-profile / static-part links recognised in Rod1D (confirmed: 8)' % checked)
+
+
 def sibling_norm(model, res):
     """CylindricalSandwich: the in-line normalisation Anm of _run has the normal form of Anm_analytic."""
     cls = model.get_class(H + 'cylindrical_sandwich:CylindricalSandwich')
@@ -275,7 +357,9 @@ def run(model, tier):
         'by another running sum. (iii) Where the series is replaced at r = 0 by where(r != 0, f, c), c depends on t '
         'whenever f does. (iv) Rod1D.__init__ and Rod1D._run dispatch on the same five-way partition of '
         '(alpha1, beta1, alpha2, beta2) (interval-normalised tests). (v) The in-line normalisation Anm of '
-        'CylindricalSandwich._run has the normal form of the method Anm_analytic. The PDE, the boundary operator and the '
+        'CylindricalSandwich._run has the normal form of the method Anm_analytic. (vi) Rod1D BC1-BC4: the series is '
+        'expanded for the initial profile minus the static part (Ta = TL - static(0), Tb = TR - static(L) as normal '
+        'forms, two cooperating sites). The PDE, the boundary operator and the '
         'limits are numeric and not decided.')
     res.rule_text = 'instances: dimension constraints, accumulators, singular-point sites, dispatch chain, sibling pair'
     res.trusted_base = ['CPython ast', 'sympy FracField', 'NF engine', 'interval algebra']
@@ -283,5 +367,6 @@ def run(model, tier):
     accumulation(model, res)
     singular_case(model, res)
     dispatch_agreement(model, res)
+    ic_static_link(model, res)
     sibling_norm(model, res)
     return res
